@@ -333,10 +333,12 @@ func (self *BinaryConv) doRecurse(ctx context.Context, s string, jp int, desc *t
 
 						if err == errNull {
 							// unwind written field tag
+							// NOTICE: a null member is regarded as unset (same as the native implementation),
+							// thus it is still checked by HandleRequires() below
 							p.Buf = p.Buf[:ks]
+						} else {
+							bm.Set(ft.ID(), thrift.OptionalRequireness)
 						}
-
-						bm.Set(ft.ID(), thrift.OptionalRequireness)
 					}
 
 				OBJECT_NEXT:
